@@ -434,6 +434,15 @@ def main(tier, seed, keep=False):
         solver_s += time.time() - ts
         counts[q['kind']] = counts.get(q['kind'], 0) + 1
         if r == z3.sat:
+            if q['kind'] == 'partner-gate':
+                # a difference in generated code needs requests to show it: prefer the largest subset among the models (every other
+                # feature on that the formula allows), so that the differential replay has every other trait to work with
+                for f in FEATURES:
+                    s.push()
+                    s.add(FV[f])
+                    if s.check() != z3.sat:
+                        s.pop()
+                s.check()
             q['subset'] = model_subset(s.model())
             sat.append(q)
         elif r != z3.unsat:
@@ -522,7 +531,7 @@ def main(tier, seed, keep=False):
             continue
         ok, detail = replay_partner(subset, [])
         if ok is False:
-            violations.append((tuple(subset), [dict(kind='validation', where='expansion differential', what='subset expands the corpus differently from the all-features build although every partner-gate obligation is unsat (found by the differential validation pass, not by the solver)')], detail))
+            violations.append((tuple(subset), [dict(kind='validation', where='expansion differential', what='subset expands the corpus differently from the all-features build (found by the differential validation pass over the stated subsets, not by the solver)')], detail))
         elif ok is None and 'expand identically' not in detail:
             inconclusive.append(f'expansion differential for {subset}: {detail[:400]}')
         else:
@@ -617,6 +626,30 @@ def replay_partner(subset, ql):
             r2 = copy.copy(r)
             r2.rid = f'p{len(reqs)}'
             reqs.append(r2)
+    # supplement: two enabled traits with attributes on one field / variant field, in both orders, as separate attributes and as one list
+    # (per-field scanner state carried from one attribute to the next is feature-gated in places)
+    FA = {'Debug': 'Debug(ignore)', 'PartialEq': 'PartialEq(ignore)', 'PartialOrd': 'PartialOrd(ignore)', 'Ord': 'Ord(ignore)', 'Hash': 'Hash(ignore)',
+          'Clone': 'Clone(method = ::core::clone::Clone::clone)', 'Default': 'Default = 3', 'Deref': 'Deref', 'DerefMut': 'DerefMut', 'Into': 'Into(u8)'}
+
+    class _Raw:
+        def __init__(self, rid, src):
+            self.rid, self.src = rid, src
+
+        def source(self, with_derive=False):
+            return self.src
+    for ta in subset:
+        for tb in subset:
+            if ta == tb or ta not in FA or tb not in FA:
+                continue
+            tl = ', '.join(('Into(u8)' if t == 'Into' else t) for t in (ta, tb))
+            for src in (f'#[educe({tl})]\npub struct Ty {{ #[educe({FA[ta]})] #[educe({FA[tb]})] x: u8, y: u8 }}',
+                        f'#[educe({tl})]\npub struct Ty(#[educe({FA[ta]}, {FA[tb]})] u8, u8);',
+                        f'#[educe({tl})]\npub enum Ty {{ #[educe(Default)] A(#[educe({FA[ta]}, {FA[tb]})] u8, u8), B {{ #[educe({FA[ta]})] #[educe({FA[tb]})] x: u8, y: u8 }} }}'):
+                reqs.append(_Raw(f'p{len(reqs)}', src))
+    if 'PartialEq' in subset and 'Eq' in subset:
+        for tb in subset:
+            if tb in FA and tb != 'PartialEq':
+                reqs.append(_Raw(f'p{len(reqs)}', f'#[educe(PartialEq, Eq, {"Into(u8)" if tb == "Into" else tb})]\npub struct Ty {{ #[educe(Eq(ignore), {FA[tb]})] x: u8, #[educe({FA[tb]})] #[educe(Eq(ignore))] y: u8, z: u8 }}'))
     a, b = e2.expand(exe_s, reqs), e2.expand(exe_f, reqs)
     diffs = []
     for r in reqs:
